@@ -409,6 +409,12 @@ class GEngine(object):
         if self.args.replay:
             return self.replay(self.args.replay)
         self.admit()
+        if len(self.targets) < 3:
+            # nothing (or next to nothing) runs in a fresh process: the check could only be vacuous
+            sample = [(jid, (g[0].get("message") or "")[-200:]) for jid, g in sorted(self.rejected_goldens.items())[:3]]
+            print("HARNESS-ERROR: only %d of the pool's jobs run in a fresh process (the seam does not "
+                  "support what this tree does, or shroud fails on everything): %s" % (len(self.targets), sample))
+            return report.EXIT_HARNESS
         if self.args.dump_specs:
             self.run_rounds()
             return 0
